@@ -502,8 +502,75 @@ func realScenario(id, fin string, readBytes int, chunks, chunkBytes int, closeEa
 	return tr
 }
 
+// probeDesign finds out whether the implementation still has the shape Upload.tla describes: the request is in flight as soon as
+// Create has returned (HTTPClient.Do is called without waiting for Close), and a Write hands its bytes to the request body
+// synchronously (it does not return while the transport has consumed nothing). An implementation that spools the upload and
+// sends it at Close, or buffers writes, can satisfy the property all the same; the step-by-step replay of the model's behaviours
+// does not apply to it and is skipped (the recorded direction judges it).
+type probeTr struct {
+	called  chan struct{}
+	release chan struct{}
+}
+
+func (t *probeTr) Do(req *http.Request) (*http.Response, error) {
+	select {
+	case t.called <- struct{}{}:
+	default:
+	}
+	<-t.release
+	if req.Body != nil {
+		io.Copy(io.Discard, req.Body)
+		req.Body.Close()
+	}
+	return &http.Response{StatusCode: 204, Status: "204 No Content", Header: http.Header{}, Body: http.NoBody, Request: req, Proto: "HTTP/1.1", ProtoMajor: 1, ProtoMinor: 1}, nil
+}
+
+func probeDesign() map[string]interface{} {
+	res := map[string]interface{}{"k": "probe", "do_at_create": false, "write_synchronous": true, "err": ""}
+	tr := &probeTr{called: make(chan struct{}, 1), release: make(chan struct{})}
+	cli, err := webdav.NewClient(tr, "http://example.com/")
+	if err != nil {
+		res["err"] = err.Error()
+		return res
+	}
+	ctx, cancel := context.WithCancel(context.Background())
+	defer cancel()
+	w, err := cli.Create(ctx, "/probe")
+	if err != nil {
+		res["err"] = err.Error()
+		return res
+	}
+	select {
+	case <-tr.called:
+		res["do_at_create"] = true
+	case <-time.After(2 * time.Second):
+	}
+	wrote := make(chan struct{})
+	go func() {
+		w.Write([]byte{1})
+		close(wrote)
+	}()
+	select {
+	case <-wrote:
+		res["write_synchronous"] = false
+	case <-time.After(time.Second):
+	}
+	close(tr.release)
+	closed := make(chan struct{})
+	go func() {
+		<-wrote
+		w.Close()
+		close(closed)
+	}()
+	select {
+	case <-closed:
+	case <-time.After(10 * time.Second):
+	}
+	return res
+}
+
 func main() {
-	mode := flag.String("mode", "replay", "replay | real")
+	mode := flag.String("mode", "replay", "replay | real | probe")
 	scriptsF := flag.String("scripts", "", "ndjson of scripts")
 	out := flag.String("out", "", "output ndjson")
 	unit := flag.Int("unit", 1, "bytes per model unit")
@@ -519,7 +586,10 @@ func main() {
 	w := bufio.NewWriter(fh)
 	enc := json.NewEncoder(w)
 	n := 0
-	if *mode == "replay" {
+	if *mode == "probe" {
+		enc.Encode(probeDesign())
+		n++
+	} else if *mode == "replay" {
 		in, err := os.Open(*scriptsF)
 		if err != nil {
 			fmt.Fprintln(os.Stderr, err)
